@@ -486,7 +486,12 @@ def run_c19(ctx):
                                "my config.ini", "CONF.TOML", "x.yaml"])
             ctx.bump("config_file_name:" + ("toml" if cfname == "custom.toml" else "other"))
             cf = os.path.join(d, cfname)
-            kind = r.choice(["ok", "ok", "missing", "dir"])
+            kind = r.choice(["ok", "ok", "missing", "dir", "missing_with_sibling"])
+            if kind == "missing_with_sibling":
+                # the named file does not exist, a file of that name plus ".toml" does: still "must exist"
+                cf = os.path.join(d, "team")
+                with open(cf + ".toml", "w") as f:
+                    f.write("line_ending = \"crlf\"\n")
             if kind == "ok":
                 with open(cf, "w") as f:
                     f.write("".join(toml_line(k, v) for k, v in filekv))
